@@ -282,6 +282,8 @@ def run(repo, chk):
                f"{q_} builds the probe from its selectors with raw=raw, probe_type=probe_type, env=env (found {[norm(c)[:90] for c in ctor_calls]})")
     from .shared import variant_selection_obligations
     variant_selection_obligations(repo, chk, "R02.6")
+    from .shared import value_once_obligations
+    value_once_obligations(repo, chk, "R02.2", "every target of one statement (`a = b = next(it)`) reports the one value that was bound", H)
     from .shared import reinstall_obligations
     reinstall_obligations(repo, chk, "R02.6", "a probe activated after another probe on the same variable was released still gets the variant that reports it")
     from ..pairing import contextvars_of, journal_findings
